@@ -726,6 +726,40 @@ def check_trimmer(prog, res, rule='trimmed-name'):
                      'the erase is skipped when find_last_not_of returns npos, so a string consisting only of spaces is left untouched instead of becoming empty',
                      function=f.sig, expr='trimmer-allspace')
         return
+    # idiom C: erase(std::find_if(s.rbegin(), s.rend(), [](char c){ return c != ' '; }).base(), s.end())
+    er = [m for m in muts if m['callee']['name'] == 'erase']
+    if len(er) == 1 and set(names) == {'erase', 'rbegin', 'rend'} | (set(names) & {'end'}) and len(f.call_args(er[0])) == 2:
+        def unconv(i):
+            # iterator -> const_iterator conversions wrap the argument in a one-argument constructor
+            n_ = f.nodes[f.strip(i, 'all')]
+            while n_['k'] in ('CXXConstructExpr', 'CXXTemporaryObjectExpr') and len(n_.get('args', [])) == 1 and '_iterator' in n_['callee'].get('class', n_['callee'].get('qname', '')):
+                n_ = f.nodes[f.strip(n_['args'][0], 'all')]
+            return n_
+        a0 = unconv(f.call_args(er[0])[0])
+        a1 = R.render(unconv(f.call_args(er[0])[1])['id'])
+        fi = None
+        if a0['k'] == 'CXXMemberCallExpr' and a0['callee']['name'] == 'base' and a0.get('obj') is not None:
+            c0 = f.nodes[f.strip(a0['obj'], 'all')]
+            if c0['k'] == 'CallExpr' and c0['callee'].get('qname') == 'std::find_if':
+                fi = c0
+        if fi is not None and a1 == 'arg0.end()':
+            fa = f.call_args(fi)
+            rb, re_ = R.render(fa[0]), R.render(fa[1])
+            lams = [n for n in f.nodes if n['k'] == 'LambdaExpr']
+            pred_ok = False
+            if len(lams) == 1:
+                body = [x for x in lams[0]['ch'] if f.nodes[x]['k'] == 'CompoundStmt']
+                st = [f.nodes[x] for x in f.nodes[body[0]]['ch']] if body else []
+                if len(st) == 1 and st[0]['k'] == 'ReturnStmt' and st[0]['ch']:
+                    e = f.nodes[f.strip(st[0]['ch'][0], 'all')]
+                    if e['k'] == 'BinaryOperator' and e['op'] == '!=':
+                        sides = [f.nodes[f.strip(x, 'all')] for x in e['ch']]
+                        if any(x['k'] == 'CharacterLiteral' and x['v'] == 32 for x in sides) and any(x['k'] == 'DeclRefExpr' and x['decl'].get('dk') == 'param' for x in sides):
+                            pred_ok = True
+            if rb == 'arg0.rbegin()' and re_ == 'arg0.rend()' and pred_ok:
+                res.ok(rule, 'removeTrailingSpaces: erase(find_if(rbegin, rend, c != \' \').base(), end())', f.loc(),
+                       'everything after the last non-space character is erased; an all-space string is emptied (rend().base() == begin())', function=f.sig, expr='trimmer', nontrivial=False)
+                return
     if not muts or any(nm not in ('pop_back', 'erase', 'resize') for nm in names):
         res.undecided(rule, 'removeTrailingSpaces body', f.loc(), 'trimmer mutates the string with %s: not an idiom the rule knows' % names, function=f.sig, expr='body')
         return
